@@ -13,6 +13,14 @@
 //     projection setter, carry a counting measurements.Filter and a DSCP that
 //     identifies them on the wire.
 //
+// Where the offered paths come from (kind "session"): as in timeservice.go,
+// ntpReferenceClockSCION.MeasureClockOffset, every round of a session hands
+// pather.Paths(remoteIA) of one real scion.Pather to MeasureClockOffsetSCION.
+// The Pather is started with StartPather against a scripted daemon and
+// refreshed by the refresher's own statement (update, via the overlay hook
+// VerifRefresh: harness/c15/overlay, added with `go test -overlay`); the
+// offer a round is judged against is what that daemon answered last.
+//
 // Observed per round and written in model units for MultipathTrace.tla: which
 // responder every client's requests reached, whether its first request was a
 // basic one, Filter.Reset / Filter.Do calls, the interleaved-mode projection
@@ -29,6 +37,7 @@ import (
 	"net"
 	"net/netip"
 	"os"
+	"runtime"
 	"slices"
 	"sync"
 	"sync/atomic"
@@ -37,6 +46,7 @@ import (
 
 	"github.com/google/gopacket"
 	"github.com/scionproto/scion/pkg/addr"
+	"github.com/scionproto/scion/pkg/daemon"
 	"github.com/scionproto/scion/pkg/segment/iface"
 	"github.com/scionproto/scion/pkg/slayers"
 	"github.com/scionproto/scion/pkg/snet"
@@ -48,6 +58,7 @@ import (
 	"example.com/scion-time/core/server"
 	"example.com/scion-time/core/timebase"
 	"example.com/scion-time/net/ntp"
+	"example.com/scion-time/net/scion"
 	"example.com/scion-time/net/udp"
 
 	"verif/harness/internal/vio"
@@ -145,15 +156,20 @@ type expJ struct {
 }
 
 type tcase struct {
-	Kind string `json:"kind"` // "round" | "sample" | "word"
-	ID   int    `json:"id"`
-	Gid  int    `json:"gid"`
-	Gpos int    `json:"gpos"`
-	Glen int    `json:"glen"`
-	L    int    `json:"L"`
-	D    int    `json:"D"`
-	V    []int  `json:"v"`   // per scripted word: residue class in 0..L-1
-	Rej  []int  `json:"rej"` // per scripted word: number of rejected words fed before it
+	Kind string `json:"kind"` // "round" | "sample" | "word" | "session" | (in a session) "refresh"
+	// session: refreshes (offered = the daemon's answer) and rounds, in order
+	Sid    int     `json:"sid"`
+	Events []tcase `json:"events"`
+	// round in a session: the specification expects residue of earlier rounds if the slice were shared
+	ExpStale bool  `json:"exp_stale"`
+	ID       int   `json:"id"`
+	Gid      int   `json:"gid"`
+	Gpos     int   `json:"gpos"`
+	Glen     int   `json:"glen"`
+	L        int   `json:"L"`
+	D        int   `json:"D"`
+	V        []int `json:"v"`   // per scripted word: residue class in 0..L-1
+	Rej      []int `json:"rej"` // per scripted word: number of rejected words fed before it
 	// round
 	Nc        int       `json:"nc"`
 	Offered   []int     `json:"offered"`
@@ -184,6 +200,15 @@ type roundRec struct {
 	Offered []int  `json:"offered"`
 	Mode    []int  `json:"mode"`
 	Theta   []int  `json:"theta"`
+	// where the offered paths came from: "caller" (a slice made for this call) or
+	// "pather" (Pather.Paths of the session's path table; offered = the daemon's last answer)
+	Src      string `json:"src"`
+	Sid      int    `json:"sid"`
+	Rnd      int    `json:"rnd"`       // number of the round in its session
+	Since    int    `json:"since"`     // rounds of the session since the last refresh, before this one
+	Nref     int    `json:"nref"`      // refreshes of the session so far
+	Nans     int    `json:"nans"`      // answers the session's daemon gave so far (one per refresh)
+	ExpStale bool   `json:"exp_stale"` // specification side: an earlier round since the refresh selected in place
 
 	Probed     [][]int `json:"probed"`      // per client: responders (path indices) its requests reached
 	Asg        []int   `json:"asg"`         // per client: the responder reached (first), 0 = none
@@ -203,12 +228,13 @@ type roundRec struct {
 	Judged     bool    `json:"judged"` // all produced values on the grid (else the FTM clause is not judged)
 	Stray      int     `json:"stray"`
 
-	ExpAsg    []int  `json:"exp_asg"`
-	ExpResets []int  `json:"exp_resets"`
-	ExpRng    []int  `json:"exp_rng"`
-	ExpErr    string `json:"exp_err"`
-	ExpOff    int    `json:"exp_off"`
-	Scripted  []int  `json:"scripted"` // per client fail kind
+	ExpOffered []int  `json:"exp_offered"` // the offer of the case (for "pather": of the behaviour's last refresh)
+	ExpAsg     []int  `json:"exp_asg"`
+	ExpResets  []int  `json:"exp_resets"`
+	ExpRng     []int  `json:"exp_rng"`
+	ExpErr     string `json:"exp_err"`
+	ExpOff     int    `json:"exp_off"`
+	Scripted   []int  `json:"scripted"` // per client fail kind
 }
 
 type sampleRec struct {
@@ -558,9 +584,85 @@ func nrej(c *tcase) int {
 	return n
 }
 
-func (w *world) runRound(c *tcase) *roundRec {
+// ------------------------------------------------------- the path service
+// mkPaths: path index p (1-based) of an offer has fingerprint offered[p-1] and
+// responder p as its underlay next hop.
+func (w *world) mkPaths(offered []int) []snet.Path {
+	for len(w.resp) < len(offered) {
+		w.resp = append(w.resp, newResponder(w.t, len(w.resp)+1))
+	}
+	ps := make([]snet.Path, len(offered))
+	for p := range offered {
+		ps[p] = spath.Path{
+			Src: localIA, Dst: remoteIA,
+			DataplanePath: spath.Empty{},
+			NextHop:       w.resp[p].addr,
+			Meta:          snet.PathMetadata{Interfaces: fpIfaces(offered[p])},
+		}
+	}
+	return ps
+}
+
+// pathDaemon is the scripted SCION daemon behind a session's Pather: it
+// answers LocalIA and Paths (all update() asks) with the current offer, a
+// fresh slice per answer.  Every other method of daemon.Connector is the nil
+// embedded interface.
+type pathDaemon struct {
+	daemon.Connector
+	mu       sync.Mutex
+	offer    []snet.Path
+	fps      []int
+	answered []int // fingerprints of the latest answer given for remoteIA
+	nans     int
+	stop     bool
+}
+
+func (d *pathDaemon) set(ps []snet.Path, fps []int) {
+	d.mu.Lock()
+	d.offer, d.fps = ps, fps
+	d.mu.Unlock()
+}
+
+func (d *pathDaemon) LocalIA(ctx context.Context) (addr.IA, error) {
+	d.mu.Lock()
+	stop := d.stop
+	d.mu.Unlock()
+	if stop {
+		// the session is over; its refresher goroutine (it ignores its context
+		// and never stops its ticker) ends here at its next turn
+		runtime.Goexit()
+	}
+	return localIA, nil
+}
+
+func (d *pathDaemon) Paths(ctx context.Context, dst, src addr.IA, f daemon.PathReqFlags) ([]snet.Path, error) {
+	d.mu.Lock()
+	defer d.mu.Unlock()
+	if dst != remoteIA {
+		return nil, nil
+	}
+	d.answered = append([]int{}, d.fps...)
+	d.nans++
+	return append([]snet.Path{}, d.offer...), nil
+}
+
+func (d *pathDaemon) lastAnswer() ([]int, int) {
+	d.mu.Lock()
+	defer d.mu.Unlock()
+	return append([]int{}, d.answered...), d.nans
+}
+
+// runRound: one call of MeasureClockOffsetSCION.  With pather == nil the
+// offered paths are a slice made for this call; otherwise they are obtained
+// as ntpReferenceClockSCION.MeasureClockOffset (timeservice.go) does:
+//
+//	ps = c.pather.Paths(c.remoteAddr.IA)
+//	return client.MeasureClockOffsetSCION(ctx, c.log, c.ntpcs[:], c.localAddr, c.remoteAddr, ps)
+//
+// and offered is what the daemon answered at the last refresh.
+func (w *world) runRound(c *tcase, pather *scion.Pather, offered []int) *roundRec {
 	w.round++
-	np := len(c.Offered)
+	np := len(offered)
 	for len(w.resp) < np {
 		w.resp = append(w.resp, newResponder(w.t, len(w.resp)+1))
 	}
@@ -572,19 +674,16 @@ func (w *world) runRound(c *tcase) *roundRec {
 	}
 	for p := range w.resp {
 		th := time.Duration(0)
-		if p < np {
+		if p < np && p < len(c.Theta) {
 			th = time.Duration(c.Theta[p]) * unit
 		}
 		w.resp[p].arm(w.round, th, c.Script)
 	}
-	ps := make([]snet.Path, np)
-	for p := range np {
-		ps[p] = spath.Path{
-			Src: localIA, Dst: remoteIA,
-			DataplanePath: spath.Empty{},
-			NextHop:       w.resp[p].addr,
-			Meta:          snet.PathMetadata{Interfaces: fpIfaces(c.Offered[p])},
-		}
+	src := "pather"
+	var callerPs []snet.Path
+	if pather == nil {
+		src = "caller"
+		callerPs = w.mkPaths(offered)
 	}
 	laddr := udp.UDPAddr{IA: localIA, Host: &net.UDPAddr{IP: net.IPv4(127, 0, 0, 1).To4()}}
 	raddr := udp.UDPAddr{IA: remoteIA, Host: &net.UDPAddr{IP: net.IPv4(127, 0, 0, 1).To4(), Port: 10123}}
@@ -618,13 +717,13 @@ func (w *world) runRound(c *tcase) *roundRec {
 				sc.InterleavedMode = true
 				prev.Reference, prev.Interleaved = reference, false
 				if np > 0 {
-					prev.Path = fpString(c.Offered[i%np])
+					prev.Path = fpString(offered[i%np])
 				}
 				sc.VerifSetPrev(prev)
 			case 3: // interleaved state on record but the mode is switched off
 				prev.Reference, prev.Interleaved = reference, true
 				if np > 0 {
-					prev.Path = fpString(c.Offered[i%np])
+					prev.Path = fpString(offered[i%np])
 				}
 				sc.VerifSetPrev(prev)
 			}
@@ -650,6 +749,12 @@ func (w *world) runRound(c *tcase) *roundRec {
 				panicked = true
 			}
 		}()
+		var ps []snet.Path
+		if pather == nil {
+			ps = callerPs
+		} else {
+			ps = pather.Paths(raddr.IA)
+		}
 		_, off, err = client.MeasureClockOffsetSCION(ctx, w.log, cs, laddr, raddr, ps)
 	})
 	if anyDrop {
@@ -657,12 +762,13 @@ func (w *world) runRound(c *tcase) *roundRec {
 	}
 
 	rec := &roundRec{Kind: "round", ID: c.ID, Gid: c.Gid, Gpos: c.Gpos, Glen: c.Glen, L: c.L, D: c.D,
-		V: nn(c.V), Nread: sr.nread - nrej(c), Nc: c.Nc, Offered: nn(c.Offered), Mode: nn(c.Mode), Theta: nn(c.Theta),
+		V: nn(c.V), Nread: sr.nread - nrej(c), Nc: c.Nc, Offered: nn(offered), Mode: nn(c.Mode), Theta: nn(c.Theta),
+		Src: src, ExpStale: c.ExpStale,
 		Probed: make([][]int, c.Nc), Asg: make([]int, c.Nc), Nreq: make([]int, c.Nc),
 		FirstBasic: make([]bool, c.Nc), AfterEmpty: make([]bool, c.Nc), AfterMode: make([]int, c.Nc),
 		Freset: make([]int, c.Nc), FrEmpty: make([]bool, c.Nc), Okc: make([]bool, c.Nc),
 		Meas: make([]int, c.Nc), Mnear: make([]bool, c.Nc),
-		ExpAsg: nn(c.Exp.Asg), ExpResets: nn(c.Exp.Resets), ExpRng: nn(c.Exp.Rng), ExpErr: c.Exp.Err, ExpOff: c.Exp.Off,
+		ExpOffered: nn(c.Offered), ExpAsg: nn(c.Exp.Asg), ExpResets: nn(c.Exp.Resets), ExpRng: nn(c.Exp.Rng), ExpErr: c.Exp.Err, ExpOff: c.Exp.Off,
 		Scripted: make([]int, c.Nc), Judged: true}
 	if sr.odd != 0 || sr.nread < nrej(c) {
 		rec.Nread = -1
@@ -779,7 +885,54 @@ func (w *world) starved(c *tcase, rec *roundRec) bool {
 			n++
 		}
 	}
-	return n < min(c.Nc, len(c.Offered))
+	return n < min(c.Nc, len(rec.Offered))
+}
+
+func (w *world) roundOK(c *tcase, rec *roundRec) bool {
+	return rec.Judged && rec.RetNear && rec.Stray == 0 && !w.starved(c, rec)
+}
+
+// runSession: the rounds of one path table.  The Pather is the repository's,
+// started by StartPather (its first update fills the table from the scripted
+// daemon) and refreshed by update.
+func (w *world) runSession(c *tcase) []*roundRec {
+	d := &pathDaemon{}
+	dsts := []addr.IA{remoteIA}
+	var pather *scion.Pather
+	var recs []*roundRec
+	rnd, since, nref := 0, 0, 0
+	for i := range c.Events {
+		e := &c.Events[i]
+		switch e.Kind {
+		case "refresh":
+			d.set(w.mkPaths(e.Offered), nn(e.Offered))
+			if pather == nil {
+				scion.VerifDaemonConnector = func(context.Context, string) daemon.Connector { return d }
+				pather = scion.StartPather(context.Background(), w.log, "scripted", dsts)
+				scion.VerifDaemonConnector = nil
+			} else {
+				scion.VerifRefresh(context.Background(), pather, d, dsts)
+			}
+			nref++
+			since = 0
+		case "round":
+			if pather == nil {
+				w.t.Fatalf("session %d: round before the first refresh", c.Sid)
+			}
+			offered, nans := d.lastAnswer()
+			rec := w.runRound(e, pather, offered)
+			rnd++
+			rec.Sid, rec.Rnd, rec.Since, rec.Nref, rec.Nans = c.Sid, rnd, since, nref, nans
+			since++
+			recs = append(recs, rec)
+		default:
+			w.t.Fatalf("session %d: unknown event kind %q", c.Sid, e.Kind)
+		}
+	}
+	d.mu.Lock()
+	d.stop = true
+	d.mu.Unlock()
+	return recs
 }
 
 func nn(s []int) []int {
@@ -871,15 +1024,15 @@ func TestC15(t *testing.T) {
 		w.resp = append(w.resp, newResponder(t, len(w.resp)+1))
 	}
 	waitForRxTimestamps(t)
-	rounds, retried, unjudged := 0, 0, 0
+	rounds, retried, unjudged, sessions := 0, 0, 0, 0
 	for i := range cases {
 		c := &cases[i]
 		switch c.Kind {
 		case "round":
 			var rec *roundRec
 			for attempt := 0; attempt < 3; attempt++ {
-				rec = w.runRound(c)
-				if rec.Judged && rec.RetNear && rec.Stray == 0 && !w.starved(c, rec) {
+				rec = w.runRound(c, nil, nn(c.Offered))
+				if w.roundOK(c, rec) {
 					break
 				}
 				retried++
@@ -892,6 +1045,34 @@ func TestC15(t *testing.T) {
 			if rounds%2000 == 0 {
 				server.VerifReset(nil)
 			}
+		case "session":
+			// a disturbed round (measurement noise, a stray datagram) repeats the whole session
+			var recs []*roundRec
+			for attempt := 0; attempt < 3; attempt++ {
+				recs = w.runSession(c)
+				ok, j := true, 0
+				for i := range c.Events {
+					if c.Events[i].Kind == "round" {
+						ok = ok && w.roundOK(&c.Events[i], recs[j])
+						j++
+					}
+				}
+				if ok {
+					break
+				}
+				retried++
+			}
+			sessions++
+			for _, rec := range recs {
+				if !rec.Judged {
+					unjudged++
+				}
+				out.Emit(rec)
+				rounds++
+				if rounds%2000 == 0 {
+					server.VerifReset(nil)
+				}
+			}
 		case "sample":
 			out.Emit(runSample(w, c))
 		case "word":
@@ -900,7 +1081,7 @@ func TestC15(t *testing.T) {
 			t.Fatalf("unknown case kind %q", c.Kind)
 		}
 	}
-	t.Logf("C15 rounds=%d retried=%d unjudged=%d kernel-timestamp-errors=%d records=%d",
-		rounds, retried, unjudged, errh.kts.Load(), out.N)
-	fmt.Fprintf(os.Stderr, "C15STAT rounds=%d retried=%d unjudged=%d\n", rounds, retried, unjudged)
+	t.Logf("C15 rounds=%d sessions=%d retried=%d unjudged=%d kernel-timestamp-errors=%d records=%d",
+		rounds, sessions, retried, unjudged, errh.kts.Load(), out.N)
+	fmt.Fprintf(os.Stderr, "C15STAT rounds=%d sessions=%d retried=%d unjudged=%d\n", rounds, sessions, retried, unjudged)
 }
